@@ -249,8 +249,9 @@ fn main() {
       bump(&mut dist, "matching_docs_total", allres.hits.len() as u64);
       let plan = if sort.is_empty() { "[{| pf_kind := FScore; pf_order := Desc |}]".to_string() } else { sw::plan_coq(&sort) };
       cases.push(format!(
-        "{{| c_req := {{| r_plan := {}; r_limit := {}%nat; r_topk := {}%nat; r_custom := {}; r_aggs_score := {} |}}; \
-         c_plain := {}; c_segs := {}; c_obs := {} |}}",
+        "({}, {{| c_req := {{| r_plan := {}; r_limit := {}%nat; r_topk := {}%nat; r_custom := {}; r_aggs_score := {} |}}; \
+         c_plain := {}; c_segs := {}; c_obs := {} |}})",
+        coq::b(execution != "bm25"),
         plan,
         limit,
         topk,
@@ -264,6 +265,6 @@ fn main() {
         "class1": class1, "plain": plain, "responses": obs_json, "nt": allres.hits.len() >= 2}));
     }
   }
-  let files = write_cases(&args.out, "From Coq Require Import QArith.\nFrom SL Require Import C10.Model C20.Model.\n", "C20.Model.case", "C20.Model.check_case", &cases, 12);
+  let files = write_cases(&args.out, "From Coq Require Import QArith.\nFrom SL Require Import C10.Model C20.Model.\n", "bool * C20.Model.case", "C20.Model.check_case2", &cases, 12);
   write_json(&args.out, "cases.json", &json!({"files": files, "cases": meta, "distribution": dist}));
 }
